@@ -7,6 +7,8 @@ import (
 	"time"
 
 	"github.com/avos-io/goat/gen/goatorepo"
+	"google.golang.org/grpc"
+	"google.golang.org/protobuf/types/known/wrapperspb"
 )
 
 // c02ViaProxy: the stream workloads relayed client – goat.Proxy – Demux – Server, with an interceptor
@@ -53,6 +55,100 @@ func c02ViaProxy(r *Run) {
 			r.Eval(fmt.Sprintf("viaproxy/%d/%d", rep, slowAt), true)
 			r.Count("viaproxy.streams")
 			n.close()
+		}
+	}
+}
+
+// c02ReusedMessage: both sides pass ONE message object to every RecvMsg of a stream (legal: RecvMsg
+// must overwrite it), and the sequence contains messages whose encoding is empty (the zero message)
+// after non-empty ones. Each side still receives exactly the sequence the other side sent.
+func c02ReusedMessage(r *Run) {
+	if !r.Want("reusedmsg") {
+		return
+	}
+	seq := [][]byte{[]byte("7"), nil, []byte("3"), nil, nil, []byte("9"), nil, []byte("abc"), nil}
+	for _, serialise := range []bool{true, false} {
+		for _, method := range []string{mBidi, mCliStream} {
+			in := map[string]any{"method": method, "serialise": serialise, "messages": seqStr(seq), "receivers_reuse_one_message_object": true}
+			r.Progress("reusedmsg", in)
+			rig := NewRig(RigOpt{Serialise: serialise})
+			var hgot [][]byte
+			hdone := make(chan struct{})
+			rig.Impl.SetStream(func(m string, ss grpc.ServerStream) error {
+				defer close(hdone)
+				msg := new(wrapperspb.BytesValue) // reused for every RecvMsg
+				for {
+					if err := ss.RecvMsg(msg); err != nil {
+						break
+					}
+					hgot = append(hgot, append([]byte{}, msg.Value...))
+					if m == mBidi {
+						if err := ss.SendMsg(&wrapperspb.BytesValue{Value: msg.Value}); err != nil {
+							return err
+						}
+					}
+				}
+				if m == mCliStream {
+					return ss.SendMsg(&wrapperspb.BytesValue{Value: []byte("sum")})
+				}
+				return nil
+			})
+			var cgot [][]byte
+			var term error
+			ok := within(3*hangTimeout, func() {
+				ctx, cancel := context.WithTimeout(context.Background(), 2*hangTimeout)
+				defer cancel()
+				cs, err := rig.CC.NewStream(ctx, descOf(method), method)
+				if err != nil {
+					term = err
+					return
+				}
+				msg := new(wrapperspb.BytesValue) // reused for every RecvMsg
+				for _, p := range seq {
+					if err := cs.SendMsg(&wrapperspb.BytesValue{Value: p}); err != nil {
+						term = err
+						return
+					}
+					if method == mBidi {
+						if err := cs.RecvMsg(msg); err != nil {
+							term = err
+							return
+						}
+						cgot = append(cgot, append([]byte{}, msg.Value...))
+					}
+				}
+				cs.CloseSend()
+				for {
+					if err := cs.RecvMsg(msg); err != nil {
+						term = err
+						break
+					}
+				}
+				<-hdone
+			})
+			r.Eval(fmt.Sprintf("reusedmsg/%s/%v", method, serialise), true)
+			r.Count("reusedmsg.streams")
+			norm := func(l [][]byte) [][]byte {
+				o := make([][]byte, len(l))
+				for i, b := range l {
+					o[i] = append([]byte{}, b...)
+				}
+				return o
+			}
+			if !ok {
+				r.Violate("reusedmsg.hang", "history", "the stream did not finish", in, goroutineDump(), nil)
+			} else {
+				if !seqEqual(norm(hgot), norm(seq)) {
+					r.Violate("reusedmsg.c2s", "history", "the handler (reusing one message object for RecvMsg) did not receive exactly what the caller sent", in, seqStr(hgot), seqStr(seq))
+				}
+				if method == mBidi && !seqEqual(norm(cgot), norm(seq)) {
+					r.Violate("reusedmsg.s2c", "history", "the caller (reusing one message object for RecvMsg) did not receive exactly what the handler sent", in, seqStr(cgot), seqStr(seq))
+				}
+				if term == nil || term.Error() != "EOF" {
+					r.Violate("reusedmsg.eof", "history", "the stream did not end with io.EOF", in, fmt.Sprint(term), "EOF")
+				}
+			}
+			rig.Close()
 		}
 	}
 }
